@@ -84,6 +84,12 @@ def programs(tier, seed):
     yield ("nested2", T.nested_depth(2), e, True)
     inner = T.prog([T.fn("ib", ["x", "k"], ["y"], defaults={"k": ["dflt", "k"]}), T.fn("ic", ["y", "m"], ["z"])], name="inr", bind={"m": ["bound", "m"]})
     yield ("nested-bound-default", T.prog([T.gnode("inr", inner), T.fn("oc", ["z", "q"], ["w0"])]), e, True)
+    # ... the same with falsy / None values bound inside (a binding is a binding whatever its value), one and two levels down
+    for fi, fv in enumerate([0, False, "", [], None]):
+        inner_f = T.prog([T.fn("ib", ["x", "k"], ["y"], defaults={"k": ["dflt", "k"]}), T.fn("ic", ["y", "m"], ["z"])], name="inr", bind={"m": fv})
+        yield (f"nested-bound-falsy-{fi}", T.prog([T.gnode("inr", inner_f), T.fn("oc", ["z", "q"], ["w0"])]), e, True)
+        mid_f = T.prog([T.gnode("inr", inner_f, rename_in={"m": "mm"})], name="mid")
+        yield (f"nested2-bound-falsy-{fi}", T.prog([T.gnode("mid", mid_f), T.fn("oc", ["z", "q"], ["w0"])]), e, True)
     # a wrapper whose renames re-use a name freed by an earlier rename: exposed 'a' is the UNBOUND inner 'b', while the inner
     # graph's own (bound) 'a' is exposed as 'cfg' - chained calls and the single-call form
     for form, kw in (("chain", {"rename_in_chain": [{"a": "cfg"}, {"b": "a"}]}), ("batch", {"rename_in": {"a": "cfg", "b": "a"}}), ("chain-default", {"rename_in_chain": [{"d": "tmp"}, {"b": "d"}]})):
@@ -93,6 +99,9 @@ def programs(tier, seed):
     yield ("signals", sig, e, True)
     sig2 = T.prog([T.fn("consume", ["mid", "cfg"], ["c0"]), T.fn("produce", ["start", "cfg"], ["mid"])])
     yield ("shared-input-order", sig2, e, True)
+
+
+FALSY = [0, False, "", (), None]
 
 
 def shards(tier, seed):
@@ -211,6 +220,15 @@ def check_config(acc, family, prog, ints, is_dag, cfg, runner):
                 viol("unbind-does-not-restore", f"bind({r}).unbind({r}) gives {_spec_view(gb.unbind(r).inputs)} instead of {_spec_view(spec)}")
         except Exception as e:  # noqa: BLE001
             viol("bind-of-required-rejected", f"bind({r}) raised {type(e).__name__}: {str(e)[:100]}")
+        # ... whatever the bound VALUE is (falsy values and None included)
+        for fv in FALSY:
+            try:
+                sb = gspec.bind(**{r: fv}).inputs
+            except Exception as e:  # noqa: BLE001
+                viol("bind-of-required-rejected", f"bind({r}={fv!r}) raised {type(e).__name__}: {str(e)[:100]}")
+                continue
+            if r in sb.required or r not in sb.bound:
+                viol("bind-does-not-remove-required", f"bind({r}={fv!r}) leaves required={sorted(sb.required)} bound={sorted(sb.bound)}", falsy_value=True)
     groups = _entry_groups(g, spec)
     for b in sorted(set(spec.required) | set(spec.optional) | epp):
         try:
@@ -328,5 +346,5 @@ def replay(rep):
     cfg = {k: (tuple(v) if isinstance(v, list) else v) for k, v in rep["cfg"].items()}
     ints = {"count": 0, "x0": 0, "x1": 0, "x2": 0, "total": 100, "s": 0, "a": 0, "u": 1, "lim": 3, "xa": 0, "yb": 0, "zb": 0}
     fam = rep["family"]
-    check_config(acc, fam, rep["program"], ints if fam.startswith("loop") else {}, fam in ("dag", "nested", "nested2", "nested-bound-default", "signals", "shared-input-order"), cfg, rep["runner"])
+    check_config(acc, fam, rep["program"], ints if fam.startswith("loop") else {}, fam in ("dag", "nested", "nested2", "nested-bound-default", "signals", "shared-input-order") or fam.startswith(("nested-bound-falsy", "nested2-bound-falsy")), cfg, rep["runner"])
     return [v["message"] for v in acc.violations.values()]
